@@ -6,6 +6,7 @@ import (
 	"context"
 	"fmt"
 	"math/rand"
+	"os"
 	"strings"
 	"sync"
 	"time"
@@ -21,7 +22,31 @@ type Step struct {
 	NTx   int           `json:"ntx"`
 	TxGen string        `json:"txgen"` // alpha | random | empty | big
 	Ts    string        `json:"ts"`    // inc | eq | dec
-	Exec  string        `json:"exec"`  // ok | err1 | err2 | cancel | ctx
+	Exec  string        `json:"exec"`  // ok | err1 | err2 | cancel | ctx | slow
+	// SeqErr is the identity of the error of an "error" step: plain (an opaque value) | wraps-deadline | wraps-canceled |
+	// deadline | canceled (context.DeadlineExceeded / context.Canceled, wrapped or bare) | io-timeout (wraps
+	// os.ErrDeadlineExceeded). The node's own context is alive in every case: the sequencing layer bounded a call of its own.
+	SeqErr string `json:"seq_err,omitempty"`
+}
+
+// seqErrKinds are the identities a transient sequencing-layer error may carry.
+var seqErrKinds = []string{"plain", "wraps-deadline", "wraps-canceled", "deadline", "canceled", "io-timeout"}
+
+// seqErrOf builds the error of that identity (nil: the double's opaque default).
+func seqErrOf(kind string) error {
+	switch kind {
+	case "wraps-deadline":
+		return fmt.Errorf("verif: sequencer backend: %w", context.DeadlineExceeded)
+	case "wraps-canceled":
+		return fmt.Errorf("verif: sequencer backend: %w", context.Canceled)
+	case "deadline":
+		return context.DeadlineExceeded
+	case "canceled":
+		return context.Canceled
+	case "io-timeout":
+		return fmt.Errorf("verif: sequencer backend: read: %w", os.ErrDeadlineExceeded)
+	}
+	return nil
 }
 
 // Script is one generated case.
@@ -35,6 +60,11 @@ type Script struct {
 	// hash (a digest of the previous root and the transactions) | nil | empty | same (the previous root again: nothing
 	// changed) | short (one byte) | long (128 bytes) | zeros. Absent: hash everywhere.
 	Roots []string `json:"exec_roots,omitempty"`
+	// BlockTimeMs, if not zero, is the configured block interval (the steps are driven by the harness, not by that timer);
+	// such a script has steps with exec "slow": the block executed next takes SlowExecMs - several block intervals - to
+	// execute, every time it is executed, and the execution layer honours its context like a remote client.
+	BlockTimeMs int `json:"block_time_ms,omitempty"`
+	SlowExecMs  int `json:"slow_exec_ms,omitempty"`
 }
 
 // rootKinds are the state roots an execution layer may return besides a fresh digest: the interface promises no length.
@@ -69,12 +99,19 @@ func (s Script) abstract() string {
 	var sb strings.Builder
 	fmt.Fprintf(&sb, "i%d l%v:", s.Initial, s.Lazy)
 	for _, st := range s.Steps {
-		fmt.Fprintf(&sb, "%s/%s/%s,", st.Kind, st.Ts, st.Exec)
+		fmt.Fprintf(&sb, "%s%s/%s/%s,", st.Kind, errTag(st), st.Ts, st.Exec)
 	}
 	if len(s.Roots) > 0 {
 		fmt.Fprintf(&sb, " roots=%s", strings.Join(s.Roots, ","))
 	}
 	return sb.String()
+}
+
+func errTag(st Step) string {
+	if st.Kind == world.SeqError && st.SeqErr != "" && st.SeqErr != "plain" {
+		return "(" + st.SeqErr + ")"
+	}
+	return ""
 }
 
 func gen(rng *rand.Rand, id int, quick bool) Script {
@@ -156,6 +193,28 @@ func gen(rng *rand.Rand, id int, quick bool) Script {
 			}
 		}
 	}
+	// the identity of every sequencing error, and in one script of eight one or two blocks whose execution outlasts the
+	// block interval (again from a stream of its own)
+	xr := rand.New(rand.NewSource(s.TxSeed ^ 0x736c6f77))
+	for i := range s.Steps {
+		if s.Steps[i].Kind == world.SeqError {
+			s.Steps[i].SeqErr = seqErrKinds[xr.Intn(len(seqErrKinds))]
+		}
+	}
+	if xr.Intn(8) == 0 {
+		var cand []int
+		for i, st := range s.Steps {
+			if (st.Kind == world.SeqTxs || st.Kind == world.SeqEmpty) && st.Exec == "ok" {
+				cand = append(cand, i)
+			}
+		}
+		if len(cand) > 0 {
+			s.BlockTimeMs, s.SlowExecMs = 5, 25
+			for k := 0; k < 1+xr.Intn(2); k++ {
+				s.Steps[cand[xr.Intn(len(cand))]].Exec = "slow"
+			}
+		}
+	}
 	return s
 }
 
@@ -211,6 +270,22 @@ func RunScript(r *vk.Run, s Script) {
 	da := world.NewDADouble()
 	keys := world.NewKeys("proposer")
 	opts := world.NodeOpts{Aggregator: true, InitialHeight: s.Initial, Lazy: s.Lazy}
+	var slowMu sync.Mutex
+	slowArmed, slowHeights := false, map[uint64]bool{}
+	if s.BlockTimeMs > 0 {
+		opts.BlockTime = time.Duration(s.BlockTimeMs) * time.Millisecond
+		exec.SlowExec = func(h uint64) time.Duration {
+			slowMu.Lock()
+			defer slowMu.Unlock()
+			if slowArmed {
+				slowArmed, slowHeights[h] = false, true
+			}
+			if slowHeights[h] {
+				return time.Duration(s.SlowExecMs) * time.Millisecond
+			}
+			return 0
+		}
+	}
 	n, err := world.NewNode(ctx, opts, keys, dsp, exec, seq, da, nil)
 	if err != nil {
 		r.Violation("startup", fmt.Sprintf("NewManager failed on an empty store: %v", err), s)
@@ -257,7 +332,10 @@ func RunScript(r *vk.Run, s Script) {
 		default:
 			ts = lastT.Add(-delta(txr))
 		}
-		resp := world.SeqResp{Kind: st.Kind, Time: ts}
+		resp := world.SeqResp{Kind: st.Kind, Time: ts, Err: seqErrOf(st.SeqErr)}
+		if st.Kind == world.SeqError {
+			r.Count("sequencing_error:"+map[bool]string{true: "plain", false: st.SeqErr}[st.SeqErr == ""], 1)
+		}
 		if st.Kind == world.SeqTxs {
 			resp.Txs = mkTxs(txr, st)
 		}
@@ -287,8 +365,15 @@ func RunScript(r *vk.Run, s Script) {
 			c, cancel := context.WithCancel(ctx)
 			cancel()
 			sctx = c
+		case "slow":
+			slowMu.Lock()
+			slowArmed = true
+			slowMu.Unlock()
 		}
 		step(sctx)
+	}
+	if _, done := exec.SlowExecCounts(); done > 0 {
+		r.Hit("execution-outlasts-block-interval")
 	}
 	// --- no-stall: drain what is queued, then three well-formed responses must be committed
 	exec.ClearScript()
@@ -311,6 +396,10 @@ func RunScript(r *vk.Run, s Script) {
 	if got := heightOf(); got < base+2 {
 		id := "C01-ts-empty"
 		detail := fmt.Sprintf("after the hostile script three well-formed batches and three clean steps raised the height only from %d to %d", base, got)
+		if s.BlockTimeMs > 0 {
+			ab, done := exec.SlowExecCounts()
+			detail += fmt.Sprintf("; the script has blocks whose execution takes %d ms at a block interval of %d ms, on an execution layer that honours its context: %d such execution(s) were cut short by the context the node passed, %d ran to their end", s.SlowExecMs, s.BlockTimeMs, ab, done)
+		}
 		// the known shape of C01-ts-empty: an empty batch with a decreasing timestamp was early-saved
 		if hasEmptyDec(s) && r.IsKnown(id) {
 			r.Finding(id, "no-stall", detail, witness())
@@ -386,9 +475,9 @@ func hasEmptyDec(s Script) bool {
 func sampleOf(s Script, committed int) any {
 	steps := make([]string, 0, len(s.Steps))
 	for _, st := range s.Steps {
-		steps = append(steps, fmt.Sprintf("%s/%s/%s", st.Kind, st.Ts, st.Exec))
+		steps = append(steps, fmt.Sprintf("%s%s/%s/%s", st.Kind, errTag(st), st.Ts, st.Exec))
 	}
-	return map[string]any{"initial_height": s.Initial, "lazy": s.Lazy, "steps": steps, "blocks_committed": committed, "exec_roots": s.Roots}
+	return map[string]any{"initial_height": s.Initial, "lazy": s.Lazy, "steps": steps, "blocks_committed": committed, "exec_roots": s.Roots, "block_time_ms": s.BlockTimeMs, "slow_exec_ms": s.SlowExecMs}
 }
 
 func tail(s []string, n int) []string {
@@ -478,7 +567,7 @@ const Level = "exploration"
 // Run is the check entry point.
 func Run(r *vk.Run) {
 	world.Silence()
-	r.Rule = "seeded scripts of 10-60 production steps on the real aggregator Manager (per step: response kind txs|empty|nilresp|nilbatch|error x timestamp inc|eq|dec x execution ok|err1|err2|cancel|ctx; initial height 1|2|7|1000; lazy flag; in one script of three the execution layer's state roots follow a per-height pattern of hash|nil|empty|same-as-before|1 byte|128 bytes|zeros); non-trivial = >=2 blocks committed and >=1 non-nominal step; distinct by abstract script (kind/ts/exec per step + configuration)"
+	r.Rule = "seeded scripts of 10-60 production steps on the real aggregator Manager (per step: response kind txs|empty|nilresp|nilbatch|error x timestamp inc|eq|dec x execution ok|err1|err2|cancel|ctx|slow (the block takes 5 block intervals to execute, on an execution layer that honours its context; one script of eight); a sequencing error is opaque or carries the identity of context.DeadlineExceeded / context.Canceled (wrapped or bare) or of an i/o timeout; initial height 1|2|7|1000; lazy flag; in one script of three the execution layer's state roots follow a per-height pattern of hash|nil|empty|same-as-before|1 byte|128 bytes|zeros); non-trivial = >=2 blocks committed and >=1 non-nominal step; distinct by abstract script (kind/ts/exec per step + configuration); plus the real AggregationLoop (block time 2 ms, normal and lazy) against 1-3 consecutive execution failures, 1-3 consecutive transient sequencing errors of each identity, and 1-3 consecutive blocks whose execution takes 20 block intervals"
 	r.Assume("datastore is the in-memory MemDS double (atomic Batch.Commit, durable Put)")
 	r.Assume("execution, sequencing and DA layers are doubles obeying the documented contracts")
 	r.Assume("default signature payload / validator hash providers only")
@@ -522,12 +611,29 @@ func Run(r *vk.Run) {
 			}
 		}()
 	}
+	id := 0
 	for i := 0; i < r.N(24, 400); i++ {
-		lch <- LoopCase{ID: i, Lazy: i%2 == 1, ErrKind: []string{"plain", "wraps-context-canceled"}[(i/2)%2], AtBlock: 2 + lrng.Intn(6), Times: 1 + lrng.Intn(3)}
+		lch <- LoopCase{ID: id, Lazy: i%2 == 1, Layer: "execution", ErrKind: []string{"plain", "wraps-context-canceled"}[(i/2)%2], AtBlock: 2 + lrng.Intn(6), Times: 1 + lrng.Intn(3)}
+		id++
+	}
+	// ... against transient sequencing-layer errors of every identity, and against blocks whose execution outlasts the
+	// block interval (streams of their own: the cases above stay what they were)
+	srng := r.Rand("loop-sequencing")
+	for i := 0; i < r.N(2, 20)*2*len(seqErrKinds); i++ {
+		lch <- LoopCase{ID: id, Lazy: i%2 == 1, Layer: "sequencing", ErrKind: seqErrKinds[(i/2)%len(seqErrKinds)], AtBlock: 2 + srng.Intn(6), Times: 1 + srng.Intn(3)}
+		id++
+	}
+	xrng := r.Rand("loop-slow-execution")
+	for i := 0; i < r.N(8, 60); i++ {
+		lch <- LoopCase{ID: id, Lazy: i%2 == 1, Layer: "execution-slow", AtBlock: 1 + xrng.Intn(6), Times: 1 + (i/2)%3}
+		id++
 	}
 	close(lch)
 	lwg.Wait()
 	r.Require("loop-meets-execution-failure", 12)
+	r.Require("loop-meets-sequencing-error", int64(len(seqErrKinds)*2))
+	r.Require("loop-meets-slow-execution", 4)
+	r.Require("execution-outlasts-block-interval", int64(n/40))
 }
 
 // delta draws a time step: whole seconds, or below a second down to one nanosecond (a comparison at a coarser
